@@ -73,6 +73,12 @@ def npSplitFrom (a : List Int) (start : Nat) : List Int → List (List Int)
   | i :: is => ((a.take i.toNat).drop start) :: npSplitFrom a i.toNat is
 def npSplit (a : List Int) (idx : List Int) : List (List Int) := npSplitFrom a 0 idx
 
+/-- `a >= b` elementwise (a 0/1 mask) and `x[mask] = y[mask]` for arrays of one length (the translator flags other lengths) -/
+def maskGE (a b : List Int) : List Int := List.zipWith (fun x y => if y ≤ x then (1 : Int) else 0) a b
+def maskSet : List Int → List Int → List Int → List Int
+  | x :: xs, m :: ms, y :: ys => (if m != 0 then y else x) :: maskSet xs ms ys
+  | xs, _, _ => xs
+
 /-- `np.arange(len(mask))[mask]`: the positions at which a 0/1 mask is set -/
 def whereNZAux : Nat → List Int → List Int
   | _, [] => []
